@@ -91,16 +91,23 @@ let comp_group : Registry.comp = fun _params ->
         | TAddOk (_, ev) -> "ok " ^ events_string ev ^ " | " ^ cur_state ()
         | _ -> "adderr - | " ^ cur_state ())
     | ["join"; uid; id; sys; sysop; code] ->
-       (match tdo TAdd with
-        | TAddOk (k, ev1) ->
-           let j = { j_uid = z uid; j_id = str_of_hex id; j_sys = b sys; j_sysop = b sysop;
-                     j_cred = z code } in
-           (match tdo (TOn (k, SAddClient (z "0", j))) with
-            | TOut o ->
-               if o.o_res = RAccepted then Hashtbl.replace where uid k;
-               result_string o.o_res ^ " " ^ events_string (ev1 @ o.o_events) ^ " | " ^ cur_state ()
-            | _ -> failwith "group: bad join step")
-        | _ -> "adderr - | " ^ cur_state ())
+       (* AddClient: Add, then the entry step; an object found deleted sends
+          the joiner back to Add (cannot happen in a sequential history) *)
+       let j = { j_uid = z uid; j_id = str_of_hex id; j_sys = b sys; j_sysop = b sysop;
+                 j_cred = z code } in
+       let rec attempt n evs =
+         if n = 0 then failwith "group: join keeps retrying" else
+         match tdo TAdd with
+         | TAddOk (k, ev1) ->
+            (match tdo (TOn (k, SAddClient (z "0", j))) with
+             | TOut o ->
+                if o.o_res = RAccepted then Hashtbl.replace where uid k;
+                result_string o.o_res ^ " " ^ events_string (evs @ ev1 @ o.o_events)
+                ^ " | " ^ cur_state ()
+             | TRetry -> attempt (n - 1) (evs @ ev1)
+             | _ -> failwith "group: bad join step")
+         | _ -> "adderr " ^ events_string evs ^ " | " ^ cur_state () in
+       attempt 3 []
     | ["del"; uid; id] ->
        let k = match Hashtbl.find_opt where uid with
          | Some k -> k
